@@ -187,20 +187,32 @@ def npid_provenance(prog: Program, rep: Report) -> None:
 def config_wiring(prog: Program, rep: Report) -> None:
     rule = "R08.3"
     fi = prog.func("configure.configure_v2")
-    blocks = [n for n in walk_no_nested(fi.node) if isinstance(n, ast.If) and "'filename' in config['warm_start']" in unparse(n.test)]
-    if not blocks:
-        raise AnalysisError("configure_v2: warm-start block not found")
-    body = [x for b in blocks for x in ast.walk(b)]
-    assigns = {unparse(n.targets[0]): unparse(n.value) for n in body if isinstance(n, ast.Assign)}
-    tv = assigns.get("warm_start_time", "")
-    first = [unparse(n.value) for n in body if isinstance(n, ast.Assign) and unparse(n.targets[0]) == "warm_start_time"]
-    ok = bool(first) and "tvar[-1]" in first[0] and "tvar.units" in first[0] and "num2date" in first[0]
-    rep.check(rule, fi.qual, "restart time = time of the last record, decoded with the variable's own units", ok, what_bad=f"warm_start_time = {first}", what_ok="num2date(tvar[-1], tvar.units)", loc=fi.loc())
-    rep.check(rule, fi.qual, "tvar is the file's time variable", assigns.get("tvar") == "nc.variables['time']" and assigns.get("nc") == "Dataset(warm_start_file)" and assigns.get("warm_start_file") == "config['warm_start']['filename']", what_bad=f"{ {k: assigns.get(k) for k in ('tvar', 'nc', 'warm_start_file')} }", what_ok="time of the warm-start file", loc=fi.loc())
-    rep.check(rule, fi.qual, "warm start overrides the start time", assigns.get("config['time']['start']") == "warm_start_time", what_bad=f"config['time']['start'] = {assigns.get(chr(99)+'onfig[' + repr('time') + '][' + repr('start') + ']')}", what_ok="start = last record time", loc=fi.loc())
-    rep.check(rule, fi.qual, "release is told about the warm start file", assigns.get("config['release']['warm_start_file']") == "config['warm_start']['filename']", what_bad="the release module would release the start-time rows again", what_ok="release.warm_start_file", loc=fi.loc())
-    rep.check(rule, fi.qual, "variables defaulted to []", assigns.get("config['warm_start']['variables']") == "[]", what_bad="Model.__init__ subscripts D['variables']", what_ok="[]", loc=fi.loc())
-    rep.check(rule, fi.qual, "skip_initial defaults to True for warm starts", assigns.get("config['output']['skip_initial']") == "True", what_bad="the record count of the restarted run is predicted with the cold-start formula", what_ok="True", loc=fi.loc())
+    from . import c18
+    from ..confeval import Opaque, Sym, text_of
+
+    warm = c18.v2_outcomes(prog, present=[("warm_start", "filename")], absent=[("warm_start", "variables"), ("output", "skip_initial")])
+    cold = c18.v2_outcomes(prog, absent=[("warm_start", "filename")])
+    if any(o["status"] == "unsupported" for o in warm + cold):
+        rep.add(rule, fi.qual, "configuration wiring of a warm start", None, f"configure_v2 outside the evaluator: {[o['detail'] for o in warm + cold if o['status'] == 'unsupported'][0]}", fi.loc())
+        return
+    okrun = bool(warm) and all(o["status"] == "ok" for o in warm)
+    rep.check(rule, fi.qual, "configure_v2 completes for a warm start", okrun, what_bad=f"outcomes {[(o['status'], o['detail']) for o in warm][:2]}", what_ok="ok", loc=fi.loc())
+    if not okrun:
+        return
+
+    def written(o, sec, key):
+        return o["overlay"].get((sec,), {}).get(key, "<not written>")
+
+    wsf = Sym(("warm_start", "filename"))
+    starts = [written(o, "time", "start") for o in warm]
+    texts = [text_of(v) for v in starts]
+    ok = all(isinstance(v, Opaque) and wsf in v.syms for v in starts) and all("num2date(" in t and "Dataset(<warm_start.filename>).variables['time']" in t and "[-1]" in t and ".units" in t for t in texts)
+    rep.check(rule, fi.qual, "restart time = time of the last record, decoded with the variable's own units", ok, what_bad=f"config['time']['start'] = {texts[:1]}", what_ok="num2date(tvar[-1], tvar.units) of the warm-start file", loc=fi.loc())
+    rep.check(rule, fi.qual, "tvar is the file's time variable", all(t.count("Dataset(<warm_start.filename>).variables['time']") >= 2 for t in texts), what_bad=f"{texts[:1]}", what_ok="time of the warm-start file", loc=fi.loc())
+    rep.check(rule, fi.qual, "warm start overrides the start time", all(v != "<not written>" for v in starts) and all(written(o, "time", "start") == "<not written>" for o in cold if o["status"] == "ok"), what_bad=f"config['time']['start'] = {texts[:1]} (cold start: {[text_of(written(o, 'time', 'start')) for o in cold][:1]})", what_ok="start = last record time, only for warm starts", loc=fi.loc())
+    rep.check(rule, fi.qual, "release is told about the warm start file", all(written(o, "release", "warm_start_file") == wsf for o in warm), what_bad=f"release.warm_start_file = {[text_of(written(o, 'release', 'warm_start_file')) for o in warm][:1]}: the release module would release the start-time rows again", what_ok="release.warm_start_file", loc=fi.loc())
+    rep.check(rule, fi.qual, "variables defaulted to []", all(written(o, "warm_start", "variables") == [] for o in warm), what_bad="Model.__init__ subscripts D['variables']", what_ok="[]", loc=fi.loc())
+    rep.check(rule, fi.qual, "skip_initial defaults to True for warm starts", all(written(o, "output", "skip_initial") is True for o in warm) and all(written(o, "output", "skip_initial") == "<not written>" for o in cold if o["status"] == "ok"), what_bad="the record count of the restarted run is predicted with the cold-start formula", what_ok="True", loc=fi.loc())
     # Model restores from the warm_start section: warm_start(<sec>['filename'], <sec>['variables'], self.state)
     calls = []
     for q, f in prog.module("model").functions.items():
@@ -216,7 +228,7 @@ def config_wiring(prog: Program, rep: Report) -> None:
 
 def start_rows(prog: Program, rep: Report) -> None:
     rule = "R08.5"
-    fi = prog.role_func("release", "__init__")
+    fi = __import__("sa.program", fromlist=["release_init_view"]).release_init_view(prog)
     blocks = [n for n in fi.node.body if isinstance(n, ast.If) and unparse(n.test) == "warm_start_file"]
     filt = None
     for b in blocks:
